@@ -5,7 +5,7 @@ import random
 BASE_W = dict(
     src=2, ref=6, select=4, drop=2, rename=4, mutate=6, mutate_w=1, filter=3, filter_empty=0, arrange=2,
     slice_head=1, group_by=2, ungroup=1, summarize=2, join=3, union=1, alias=2, collect=1,
-    clone=0, recompute=0, transfer=0, expr=0, collide_setup=0, selfjoin=0, hide_ref=0, touch_hidden_computed=0, hidden_computed_scenario=0, disjoint_join_scenario=0, overwrite_chain_scenario=0, pipe=0, apply_pipe=0, observe=0, collect_lazy=0,
+    clone=0, recompute=0, transfer=0, expr=0, collide_setup=0, selfjoin=0, hide_ref=0, touch_hidden_computed=0, hidden_computed_scenario=0, disjoint_join_scenario=0, overwrite_chain_scenario=0, pipe=0, apply_pipe=0, observe=0, collect_lazy=0, cq_probe=0,
     uuid_regime=1, gc=0, arm_engine=0, reject=0,
 )  # fmt: skip
 
@@ -121,7 +121,7 @@ PROFILES = {
     "sql": dict(
         property="C19",
         oracles=["O19"],
-        weights=_w(mutate=7, mutate_w=6, filter=5, arrange=4, slice_head=4, group_by=4, ungroup=1, summarize=5, select=3, rename=3, join=5, union=2, alias=4, ref=6, hide_ref=3, hidden_computed_scenario=2, touch_hidden_computed=2, collect=0, observe=3, uuid_regime=2),
+        weights=_w(mutate=7, mutate_w=6, filter=5, arrange=4, slice_head=4, group_by=4, ungroup=1, summarize=5, select=3, rename=3, join=5, union=2, alias=4, ref=6, hide_ref=3, hidden_computed_scenario=2, touch_hidden_computed=2, collect=0, observe=3, uuid_regime=2, cq_probe=8),
         mutate_kinds=dict(ref=2, tag=4, add=2, lit=1, case=2, litcast=2),
         mutate_names=[4, 5, 2, 0],
         window_kinds=WIN,
